@@ -830,9 +830,11 @@ pub fn shrink_text(c: &TextCase) -> Vec<TextCase> {
 
 // ------------------------------------------------------- texts for inline diffs
 
-const IWORDS: [&str; 16] = [
+const IWORDS: [&str; 18] = [
     "foo", "bar", "baz", "qux", "a", "bb", "h\u{e9}llo", "w\u{f6}rld", "\u{65e5}\u{672c}\u{8a9e}",
     "x1", "(y)", "f(x)", "=>", "\u{1f642}", "some", "stuff",
+    // a genuine replacement character and a zero width space are valid text
+    "\u{fffd}", "a\u{200b}b",
 ];
 const ISEPS: [&str; 6] = [" ", " ", "  ", "\t", "\u{a0}", "\u{3000}"];
 
@@ -1210,4 +1212,29 @@ pub fn gen_lopsided(rng: &mut Rng) -> (Vec<u32>, Vec<u32>) {
     } else {
         (b, a)
     }
+}
+
+/// A replaced line longer than 1 MiB in which a two-byte character straddles
+/// byte offset 2^20 (plus a second, ordinary changed line).
+pub fn gen_megaline(rng: &mut Rng) -> (String, String) {
+    let words = 176_000 + rng.usize(3000);
+    // "ab" + "w\u{f6}rd " * n: byte 2^20 is the second byte of an o-umlaut
+    let mut old = String::with_capacity(words * 6 + 64);
+    old.push_str("head\n");
+    let mut new = old.clone();
+    let mut line = String::with_capacity(words * 6 + 8);
+    line.push_str("ab");
+    for _ in 0..words {
+        line.push_str("w\u{f6}rd ");
+    }
+    let change_at = 2 + 6 * rng.usize(1000);
+    let mut line2 = line.clone();
+    line2.replace_range(change_at..change_at + 1, "W");
+    old.push_str(&line);
+    old.push('\n');
+    new.push_str(&line2);
+    new.push('\n');
+    old.push_str("tail one\n");
+    new.push_str("tail two\n");
+    (old, new)
 }
